@@ -858,8 +858,9 @@ fn do_command_substitution_for_dollar(sh: &mut Shell, tokens: &mut types::Tokens
                     cr
                 }
                 Err(e) => {
+                    // a substitution that cannot be planned yields the empty string
                     println_stderr!("cicada: {}", e);
-                    continue;
+                    types::CommandResult::new()
                 }
             };
 
